@@ -162,6 +162,32 @@ func main() {
 		}
 		if f, err := r.Load("fracmanager/sealed_frac_cache.go"); err != nil {
 			e.Missing("sealed_frac_cache.go", err)
+		} else if fdl, fdg := f.Func("sealedFracCache", "LoadFromDisk"), f.Func("sealedFracCache", "GetFracInfo"); fdl == nil || fdg == nil {
+			e.Missing("loadFromDiskDecode", "LoadFromDisk / GetFracInfo not found")
+		} else {
+			var dec []string
+			ast.Inspect(fdl.Body, func(n ast.Node) bool {
+				if c, ok := n.(*ast.CallExpr); ok {
+					fn := f.Render(c.Fun)
+					if strings.HasPrefix(fn, "json.") || strings.Contains(strings.ToLower(fn), "decode") {
+						dec = append(dec, f.Render(c))
+					}
+				}
+				return true
+			})
+			e.Strs("loadFromDiskDecode", dec, "sealedFracCache.LoadFromDisk: how the cache file is decoded")
+			var ret []string
+			if n := len(fdg.Body.List); n > 0 {
+				if r, ok := fdg.Body.List[n-1].(*ast.ReturnStmt); ok {
+					for _, x := range r.Results {
+						ret = append(ret, f.Render(x))
+					}
+				}
+			}
+			e.Strs("getFracInfoReturn", ret, "sealedFracCache.GetFracInfo: results of its final return")
+		}
+		if f, err := r.Load("fracmanager/sealed_frac_cache.go"); err != nil {
+			e.Missing("sealed_frac_cache.go", err)
 		} else if fd := f.Func("sealedFracCache", "SaveCacheToDisk"); fd == nil {
 			e.Missing("saveCacheCalls", "SaveCacheToDisk not found")
 		} else {
